@@ -749,9 +749,9 @@ func (dht *FullRT) SearchValue(ctx context.Context, key string, opts ...routing.
 			return
 		}
 
-		ctx, cancel := context.WithTimeout(ctx, time.Second*5)
-		dht.updatePeerValues(ctx, key, best, updatePeers)
-		cancel()
+		// updatePeerValues only starts the puts (each with its own timeout); a
+		// context cancelled on return here would abort every one of them.
+		dht.updatePeerValues(dht.ctx, key, best, updatePeers)
 	}()
 
 	return out, nil
